@@ -131,21 +131,21 @@ class C03:
             if accepted and verdict_model == "invalid":
                 if found:
                     self.confirmed += 1
-                    ck.corr_agree("verdicts:" + stream)  # the stricter model verdict is confirmed by a failing execution
+                    ck.corr_agree(stream)  # the stricter model verdict is confirmed by a failing execution
                 else:
                     # alias-only rejections are outside the VC set; anything else is a model/implementation divergence
                     detail = {"family": family, "src": src[len(progen.HEADER):], "invalid_vcs": [c03_vc.smt_of_vc(vc) for vc, _ in bad[:3]]}
                     self.stricter.append(detail)
-                    ck.corr_diverge("verdicts:" + stream, detail)
+                    ck.corr_diverge(stream, detail)
             elif (not accepted) and verdict_model == "valid":
                 rk = classify_reject(err)
                 if rk == "alias":
-                    ck.corr_agree("verdicts:" + stream)  # aliasing is not a VC; checked separately below
+                    ck.corr_agree(stream)  # aliasing is not a VC; checked separately below
                 else:
                     self.incomplete.append({"family": family, "reject": rk, "src": src[len(progen.HEADER):][:500]})
-                    ck.corr_agree("verdicts:" + stream)  # incompleteness of exo is allowed; the rate is reported
+                    ck.corr_agree(stream)  # incompleteness of exo is allowed; the rate is reported
             else:
-                ck.corr_agree("verdicts:" + stream)
+                ck.corr_agree(stream)
         # ---- a rejected-for-aliasing program must really alias (sanity of the static scan), an accepted one must not
         if ir_for_vc is not None:
             sites = c03_search.alias_sites(ir_for_vc)
@@ -271,11 +271,20 @@ class C03:
         self.tool.close()
 
 
+def stale(target, sources) -> bool:
+    if not target.exists():
+        return True
+    t = target.stat().st_mtime
+    return any(src.exists() and src.stat().st_mtime > t for src in sources)
+
+
 def run(ck):
     ck.coq_build("Core", props=[])
-    ck.extract("Core")
-    ok = ck.coq_build("Bounds")
-    ck.extract("Bounds")
+    if stale(common.COQ / "Core" / "_build" / "interp", [common.COQ / "Core" / "ocaml" / "interp.ml", common.COQ / "Core" / "driver.ml"]):
+        ck.extract("Core")
+    ck.coq_build("Bounds")
+    if stale(common.COQ / "Bounds" / "_build" / "bounds", [common.COQ / "Bounds" / "_build" / "bounds.ml", common.COQ / "Bounds" / "driver.ml"]):
+        ck.extract("Bounds")
     c = C03(ck)
     rng = ck.rng
     budget = ck.n(105, 900)
